@@ -5,6 +5,7 @@
 From Coq Require Import ZArith.
 From mathcomp Require Import all_ssreflect all_algebra.
 Require Import C16.Model C16.ProofsClosed.
+Require Import C06.gen.SrcFlags.
 Require Import C06.Model C06.ProofsAlg C06.ProofsKron C06.ProofsKpad C06.Bridge C06.ProofsTri C06.ProofsGen C06.ProofsSelect C06.ProofsClass C06.ProofsTree.
 Set Implicit Arguments. Unset Strict Implicit. Unset Printing Implicit Defensive.
 Import Order.Theory GRing.Theory Num.Theory.
@@ -318,10 +319,33 @@ Theorem C06_kron_root_inv_threshold ops c m :
        (fun Rs => ret (s_dat (kron_of ar Rs), s_cols (kron_of ar Rs), None)).
 Proof. by apply: kron_root_inv_threshold. Qed.
 
+(* `kron_noargs st` is a SOURCE flag (gen/SrcFlags.v, regenerated from the AST on every run): below max_cholesky_size the
+   Kronecker override calls super().root_inv_decomposition() without its arguments (true) or forwards them (false).
+   Variant "no arguments": the method argument is dropped *)
 Theorem C06_kron_root_inv_small_ignores_method ops c m m' :
+  kron_noargs st = true ->
   let a := alg ar orc st (EKron ops) in
   Z.leb (Z.of_nat (a_n a)) (mcs st) = true -> a_rootinv a c m = a_rootinv a c m'.
 Proof. by apply: kron_root_inv_small_ignores_method. Qed.
+
+(* either variant: the small branch IS the base-class root_inv_decomposition on this object's own sub-queries, run with
+   method None (arguments dropped) resp. the given method (arguments forwarded) *)
+Theorem C06_kron_root_inv_small_is_base ops c m :
+  let a := alg ar orc st (EKron ops) in
+  Z.leb (Z.of_nat (a_n a)) (mcs st) = true ->
+  a_rootinv a c m =
+  gen_root_inv ar orc st (a_n a) (a_dense a) c (bind (a_chol a false) (fun L => ret L)) (a_symeig a) (a_diag a MNone) (a_svd a)
+               (a_rootinvL (alg ar orc st (EDense (a_n a) (a_dense a)))) (a_root a c MNone)
+               (if kron_noargs st then MNone else m).
+Proof. by apply: kron_root_inv_small_is_base. Qed.
+
+(* the tree under test (flag read from its source): which method the small branch runs *)
+Theorem C06_kron_root_inv_small_this_tree ops c m :
+  kron_noargs st = src_kron_rootinv_noargs ->
+  let a := alg ar orc st (EKron ops) in
+  Z.leb (Z.of_nat (a_n a)) (mcs st) = true ->
+  a_rootinv a c m = a_rootinv a c (if src_kron_rootinv_noargs then MNone else m).
+Proof. by apply: kron_root_inv_small_flag. Qed.
 
 (* TriangularLinearOperator refuses the Cholesky and Lanczos-root routes *)
 Theorem C06_triangular_raises n upper Tm :
@@ -481,6 +505,27 @@ Theorem C06_model_kron_root_inv_valid (ops : list (expr T)) c m :
   List.Forall (fun e => rootinv_ok (a_n (algR e)) (a_dense (algR e)) (a_rootinv (algR e) no_cache MNone)) ops ->
   rootinv_ok (a_n a) (a_dense a) (a_rootinv a c m).
 Proof. by apply: kron_root_inv_valid_model. Qed.
+
+(* below max_cholesky_size, in EITHER source variant (arguments dropped or forwarded): valid for every method argument *)
+Theorem C06_model_kron_root_inv_small_valid (ops : list (expr T)) c m :
+  let a := algR (EKron ops) in
+  Z.leb (Z.of_nat (a_n a)) (mcs st) = true ->
+  0 < (eps_inv st : R) ->
+  (a_n a = 1%N -> exists2 x : T, a_dense a = [:: [:: x]] & 0 < (x : R)) ->
+  chol_tri_ok (a_n a) (a_dense a) (pub_cholesky arR a false) ->
+  symeig_ok (a_n a) (a_dense a) (a_symeig a) ->
+  (forall w Q, fst (a_symeig a) = Ok (w, Q) -> eps_ok st (a_n a) w) ->
+  diag_ok (a_n a) (a_dense a) (a_diag a MNone) -> diag_full_ok (a_n a) (a_dense a) (a_diag a MNone) ->
+  (forall w Q k, fst (a_diag a MNone) = Ok (w, Q, k) -> eps_ok st k w) ->
+  svd_ok (a_n a) (a_dense a) (a_svd a) ->
+  (forall U S V, fst (a_svd a) = Ok (U, S, V) ->
+     (mx (a_n a) (a_n a) U)^T *m mx (a_n a) (a_n a) U = 1%:M /\ eps_ok st (a_n a) S) ->
+  rootinv_ok (a_n a) (a_dense a) (a_rootinvL (algR (EDense (a_n a) (a_dense a)))) ->
+  root_ok (a_n a) (a_dense a) (a_root a c MNone) ->
+  (forall Rt k, fst (a_root a c MNone) = Ok (Rt, k) ->
+     k = a_n a /\ mx (a_n a) (a_n a) (o_pinv orc Rt) *m mx (a_n a) (a_n a) Rt = 1%:M) ->
+  rootinv_ok (a_n a) (a_dense a) (a_rootinv a c m).
+Proof. by apply: kron_root_inv_small_valid. Qed.
 
 (* ... _symeig (eigh / eigvalsh / diagonalization) and cholesky() at every size: orthonormal eigenbasis, eigenvalues >= 0,
    Q diag(w) Q^T = A;  L lower triangular, non-zero diagonal, L L^T = A *)
